@@ -1226,7 +1226,15 @@ fn mul_cases<B: Bk>(tier: Tier) -> Vec<MCase> {
         for &n in tier.pick(&[8usize][..], &[8usize, 16][..]) {
             for rank in 1..=2usize {
                 for &b in &radices::<B>(tier) {
-                    let b_res_set: Vec<usize> = if assign { vec![b] } else { vec![b, b - 1] };
+                    // result radix equal / finer / coarser, and much coarser (one result limb spans three operand limbs: limb counts
+                    // of the two radices must not be mixed up)
+                    let b_res_set: Vec<usize> = if assign {
+                        vec![b]
+                    } else if 3 * b <= 52 {
+                        vec![b, b - 1, b + 1, 3 * b]
+                    } else {
+                        vec![b, b - 1, b + 1]
+                    };
                     for &b_res in &b_res_set {
                         for a_size in 1..=smax {
                             for p_size in 1..=(if is_const { 3 } else { smax }) {
